@@ -239,7 +239,7 @@ def judge(cname, name, h, p, ck, settings, wrongs=True):
             continue
         if got_c != name or (ok_c is not True and name not in HS.DISABLED):
             out.append((f"C17|{cname}|category:{name}:differs", f"{cname} under category {cat!r}: identify({h!r}) = {got_c!r}, verify(own password) = {ok_c!r}; without a category {name!r} / True"))
-    if name == "plaintext" and isinstance(h, str) and not h.isascii():
+    if name in ("plaintext", "ldap_plaintext", "roundup_plaintext") and isinstance(h, str) and not h.isascii():
         # the stored value as BYTES (how a file-backed store such as HtpasswdFile hands it over): a plaintext entry is
         # not ASCII in general, and every scheme listed before the catch-all one gets to look at it first
         enc = (ck or {}).get("encoding") or "utf-8"
